@@ -4,7 +4,7 @@ import ast
 from ..core import Mutant, norm
 from .. import tcp
 from ..names import unbound_names
-from ..astutil import method_call, unparse
+from ..astutil import method_call, unparse, keytext
 from ..index import walk_local
 
 EXPLANATION = ("C10: the errno classification in all eight send/receive implementations: cut-off list covers "
@@ -55,7 +55,7 @@ def check(run):
                     hf = ix.method(ix.cls(S, "RemoterTls"), "handshake")
                     free = hs.get(hf, False)
                 ok = isolated or free
-                run.ob("C10.R3", "%s:%s" % (f.fq, norm(call)), ok, run.site(f, call),
+                run.ob("C10.R3", "%s:%s" % (f.fq, keytext(f, call)), ok, run.site(f, call),
                        "" if ok else "per-connection call `%s` in the loop over %s is not inside a try that catches OSError: "
                        "a fault on one connection escapes %s and stops servicing the others" % (norm(call), cont, f.qualname))
                 n += 1
